@@ -117,7 +117,9 @@ def mk_bpe_vocab(rng, name, style):
         if rng.random() < 0.08 and merges:
             merges.append(rng.choice(merges))  # duplicate merge line: the later rank wins
     ctrl = [b"<|bos|>", b"<|eot|>"] + ([b"<~ x>"] if style != "std" else [])
-    bos = len(values)
+    # special tokens that are prefixes of each other: which one wins depends on the order in Values
+    ctrl = ([b"<|eot|>!"] + ctrl) if style in ("safe105", "simple") else (ctrl + [b"<|bos|>!"])
+    bos = len(values) + ctrl.index(b"<|bos|>")
     for c in ctrl:
         values.append(c)
         types.append(3)
@@ -181,9 +183,10 @@ def mk_spm_vocab(rng, name, style):
             values.append(t)
             types.append(1)
             scores.append(-3)
-    values.append(b"<start_of_turn>")
-    types.append(3)
-    scores.append(0)
+    for t in ([b"<start_of_turn>", b"</s>!"] if style != "normal-first" else [b"<s>s", b"<start_of_turn>"]):
+        values.append(t)
+        types.append(3)
+        scores.append(0)
     return Vocab(name, "spm", values, types, scores, [], bos=1, eos=2, add_bos=True, add_eos=(style == "normal-first"), complete=complete)
 
 
@@ -295,8 +298,18 @@ def gen(ctx):
     vocabs.append(llama)
     cases = []
 
+    part_idx = {}
+
     def add(v, text, klass, add_special=False, group=None):
         b = text if isinstance(text, bytes) else clean(text).encode("utf-8", "surrogatepass")
+        if klass == "special-part":
+            # the same part text serves every group that needs it
+            key = (v.name, b)
+            if key in part_idx:
+                cases[part_idx[key]]["group"].append(group)
+                return
+            part_idx[key] = len(cases)
+            group = [group]
         frs = [f for f, fid in py_fragments(v, b) if fid is None] if v.kind == "bpe" else []
         cases.append({"op": "enc", "vocab": v.name, "text": b.hex(), "frags": sorted(set(f.hex() for f in frs)), "add_special": add_special,
                       "klass": klass, "group": group})
@@ -358,6 +371,38 @@ def gen(ctx):
                 add(v, a, "special-part", group=g + ":a")
                 add(v, b, "special-part", group=g + ":b")
                 add(v, a + sp + b, "special-literal", group=g + ":t:" + sp.encode().hex())
+    # several DIFFERENT special literals, several occurrences, every order (a fragment is split in a later pass while
+    # fragments already exist to its right), text between / at the ends or not, adjacent specials, prefix-related specials
+    for v in vocabs:
+        sps = [x for x in v.specials if x]
+        if len(sps) < 2:
+            continue
+        alpha = None if v.sparse else (BPE_ALPHA if v.kind == "bpe" else SPM_ALPHA)
+        fixed = []
+        for i in range(len(sps)):
+            for j in range(len(sps)):
+                if i != j and len(fixed) < 8:
+                    fixed.append([sps[i], sps[j], sps[i], sps[j]])      # alternating
+                    fixed.append([sps[j], sps[j], sps[i]])              # lower-index special right of a higher-index one
+        for k in range(len(fixed) + (18 if q else 250)):
+            if k < len(fixed):
+                seq = fixed[k]
+            else:
+                pool = rng.sample(sps, min(len(sps), rng.randint(2, 4)))
+                seq = [rng.choice(pool) for _ in range(rng.randint(2, 6))]
+            parts = []
+            for _ in range(len(seq) + 1):
+                r = rng.random()
+                parts.append("" if r < 0.3 else (rnd_text(rng, alpha, 2) if alpha and r < 0.65 else rnd_text(rng, None, 2)))
+            if k < len(fixed) and k % 2 == 0:
+                parts = ["hi", "yo", "", "hello", "x"][:len(seq) + 1]
+            g = "m%d" % len(cases)
+            whole = b""
+            for n, pt in enumerate(parts):
+                pb = clean(pt).encode("utf-8", "surrogatepass")
+                add(v, pb, "special-part", group="%s:p%d" % (g, n))
+                whole += pb + (seq[n] if n < len(seq) else b"")
+            add(v, whole, "multi-special", group="%s:t:%s" % (g, ",".join(x.hex() for x in seq)))
     return vocabs, cases
 
 
@@ -415,7 +460,7 @@ def minimise(ctx, binp, v, tb):
         return [tb]
     subs = []
     seen = set()
-    for s in substrings(text, 24):
+    for s in substrings(text, 24 if len(text) > 90 else 48):
         if s not in seen:
             seen.add(s)
             subs.append(s)
@@ -624,34 +669,42 @@ def run(ctx, only=None):
         if in_property_domain(v, c) and roundtrip_fails(c, o):
             fails.setdefault(v.name, []).append((c, o))
         # --- monitor 3 bookkeeping: planted special literal
-        if c.get("group"):
-            g = c["group"].split(":")
+        for gs in (c["group"] if isinstance(c.get("group"), list) else [c["group"]] if c.get("group") else []):
+            g = gs.split(":")
             groups.setdefault(g[0], {})[g[1]] = (c, o, g[2] if len(g) > 2 else None)
         items.append(render(v, c, o))
         meta.append((v, c, o))
     ctx.obligation("hypothesis split_partition holds on every observed pre-tokeniser answer", part_bad == 0)
-    # monitor 3
+    # monitor 3: every planted special literal is encoded as exactly its id, between the encodings of the parts
     nsp = 0
     for g, d in groups.items():
-        if not all(k in d for k in ("a", "b", "t")):
+        if "t" not in d:
             continue
-        (ca, oa, _), (cb, ob, _), (ct, ot, sph) = d["a"], d["b"], d["t"]
+        ct, ot, sph = d["t"]
         v = vby[ct["vocab"]]
-        sp = bytes.fromhex(sph)
-        ta, tb2 = bytes.fromhex(ca["text"]), bytes.fromhex(cb["text"])
-        # only when the planted literal is the only special literal of the text
-        whole = ta + sp + tb2
-        occ = sum(whole.count(s) for s in v.specials if s)
-        if occ != 1 or any("ids" not in x for x in (oa, ob, ot)):
+        seq = [bytes.fromhex(x) for x in sph.split(",")]
+        if "a" in d and "b" in d:
+            parts = [d["a"], d["b"]]
+        else:
+            parts = [d.get("p%d" % n) for n in range(len(seq) + 1)]
+        if any(x is None for x in parts) or "ids" not in ot or any("ids" not in x[1] for x in parts):
             continue
-        if v.kind == "spm" and (not ta or not tb2):
+        whole = bytes.fromhex(ct["text"])
+        # only when the planted literals are the only special literals of the text (no accidental or overlapping occurrence)
+        occ = sum(whole.count(x) for x in set(v.specials) if x)
+        if occ != len(seq):
             continue
         nsp += 1
-        want = oa["ids"] + [v.enc[sp]] + ob["ids"]
+        want = []
+        for n, (cp_, op_, _) in enumerate(parts):
+            want += op_["ids"]
+            if n < len(seq):
+                want.append(v.enc[seq[n]])
         if ot["ids"] != want:
             ctx.violation({"family": v.kind, "class": "special-literal"},
-                          "text %r containing the literal of special token %r (id %d) encoded to %s, expected %s" % (whole, sp, v.enc[sp], ot["ids"], want),
-                          {"case": ct, "impl": ot, "parts": [oa, ob]})
+                          "text %r with the special-token literals %s (ids %s) encoded to %s, expected %s (parts encoded alone, literal -> its id)" % (
+                              whole, seq, [v.enc[x] for x in seq], ot["ids"], want),
+                          {"case": ct, "impl": ot, "parts": [x[1] for x in parts]})
     ctx.extra["special_literal_checks"] = nsp
     # monitor 2: shrink and classify
     nfail = 0
